@@ -1050,6 +1050,13 @@ func (vm *VirtualMachine) reloadCode(main *compiler.Code) *code {
 	delete(vm.loadedCode, main)
 	newWrappedMain := vm.loadCode(main)
 	copy(newWrappedMain.Globals, oldWrappedMain.Globals)
+	// Functions that were loaded earlier share the globals of the main code
+	// and have to follow it to the new globals
+	for cc, c := range vm.loadedCode {
+		if cc != main && cc.Root() == main {
+			c.Globals = newWrappedMain.Globals
+		}
+	}
 	return newWrappedMain
 }
 
